@@ -192,7 +192,11 @@ def _map_container(
 
     If `container` is a mapping of
     keys to values, then map each value.
+
+    If `container is None`, then return `None`.
     """
+    if container is None:
+        return None
     if isinstance(container, _abc.Mapping):
         return _map_values(mapper, container)
     return list(map(mapper, container))
